@@ -146,8 +146,16 @@ const (
 // CheckPositions verifies every node position of an error-free tree against
 // ExpectedSpan and the nesting / ordering clauses. php5 enables the matchers
 // of the two PHP 5-only known findings.
-func CheckPositions(root ast.Vertex, php5 bool) PosReport {
+//
+// src, when not nil, is the parsed source: the line fields of every node are
+// then compared with the harness's own line model (oracle.Lines) evaluated at
+// the node's recorded offsets, so they are not taken on trust from the tokens.
+func CheckPositions(root ast.Vertex, php5 bool, src []byte) PosReport {
 	rep := PosReport{Sites: map[string]int{}}
+	var lines *Lines
+	if src != nil {
+		lines = NewLines(src)
+	}
 	var walk func(n, parent ast.Vertex, slot, path, site string, inNewClass bool) bool
 	walk = func(n, parent ast.Vertex, slot, path, site string, inNewClass bool) bool {
 		rep.Nodes++
@@ -163,6 +171,22 @@ func CheckPositions(root ast.Vertex, php5 bool) PosReport {
 				rep.Clause = "span"
 				rep.Msg = fmt.Sprintf("%s: recorded position %s, but the node's own tokens span %s", path, got, want)
 				return false
+			}
+		}
+		if lines != nil && !got.Nil {
+			if got.StartPos >= 0 && got.StartPos <= len(src) {
+				if l := lines.Line(got.StartPos); got.StartLine != l {
+					rep.Clause = "start-line"
+					rep.Msg = fmt.Sprintf("%s: recorded position %s, but offset %d is on line %d", path, got, got.StartPos, l)
+					return false
+				}
+			}
+			if got.EndPos > 0 && got.EndPos > got.StartPos && got.EndPos <= len(src) {
+				if l := lines.Line(got.EndPos - 1); got.EndLine != l {
+					rep.Clause = "end-line"
+					rep.Msg = fmt.Sprintf("%s: recorded position %s, but its last byte (offset %d) is on line %d", path, got, got.EndPos-1, l)
+					return false
+				}
 			}
 		}
 		// children within the parent, in source order, not overlapping
